@@ -71,7 +71,8 @@ CHECKS = {
         text="(A) one really failing element (ill-formed / failing expression, send with unsupported type, malformed target or unknown invoke id, failing <if> condition, "
              "failing <data>, promela division by zero) planted at a sampled position of a sampled executable block of a generated chart; the run is refined step by step "
              "against the Appendix D model that is told which element fails: error event raised in order, rest of the block skipped, other blocks executed, interpreter "
-             "keeps running, no exception leaves step(). (B) seeded XML mutations of generated charts loaded and stepped under crash containment. (F) a failing element "
+             "keeps running, no exception leaves step(). (B) seeded XML mutations of generated charts (attribute/element damage, and insertion of valid constructs the generator "
+             "does not produce: arrays and foreach, script, donedata, send content) loaded and stepped under crash containment. (F) a failing element "
              "inside <finalize> of an invoke whose child sends n events: finalize runs up to the failing element for every event, the event is still processed, one error "
              "event each, the interpreter answers afterwards. (T) transient faults: the real Lua/Promela datamodel behind a decorator that makes seeded datamodel calls "
              "issued from executable content fail (evalAsData, evalAsBool, assign, eval); every injected fault is recorded, and the run is refined against the model that is "
